@@ -1,11 +1,13 @@
-(* C19 — writing is repeatable: observation is pure and output is a fixed point.  Headline theorems only. *)
+(* C19 — writing is repeatable: observation is pure and output is a fixed point.  Headline theorems only (proofs:
+   Proofs/TreeProofs.v; line wrapping is property C10's model, Model/Wrap.v).  In the source, formatting MUTATES the syntax tree (ListNode.format
+   repairs missing padding, ValueNode.format fixes the field width it reverse engineers the first time a changed
+   value is written, ParticleNode.format normalises its order): [format] returns the tree it leaves. *)
 From Coq Require Import List String.
-From MPV Require Import Model.Tree Model.Wrap Proofs.TreeProofs Proofs.WrapProofs.
+From MPV Require Import Model.Tree Proofs.TreeProofs.
 Import ListNotations.
 Open Scope string_scope.
 
-(* formatting mutates the tree (ListNode padding repair); for EVERY tree, edited or not, formatting a second
-   time gives the same text ... *)
+(* for EVERY tree, edited or not, formatting a second time gives the same text ... *)
 Theorem C19_format_idempotent : forall n, fst (format (snd (format n))) = fst (format n).
 Proof. exact format_idempotent. Qed.
 Print Assumptions C19_format_idempotent.
@@ -15,21 +17,53 @@ Theorem C19_format_idempotent_tree : forall n, snd (format (snd (format n))) = s
 Proof. exact format_idempotent_tree. Qed.
 Print Assumptions C19_format_idempotent_tree.
 
-(* an observation between two edits does not matter: the edit is local in the observed tree as well *)
+(* an unedited tree as the parsers build it is not changed at all by an observation *)
 Theorem C19_unedited_fixed_point : forall n,
   unedited n = true -> as_parsed n = true -> format n = (flatten n, n).
 Proof. exact format_unchanged_pair. Qed.
 Print Assumptions C19_unedited_fixed_point.
 
-(* a line MontePy wrote fits the limit, so writing it again does not re-wrap it *)
-Theorem C19_wrap_fixed_point : forall W ii si chunks,
-  chunks <> [] -> Forall (fun c => c <> "") chunks ->
-  slen ii + slen (String.concat "" chunks) <= W ->
-  wrap_chunks W ii si chunks = Some [ii ++ String.concat "" chunks].
-Proof. exact wrap_identity. Qed.
-Print Assumptions C19_wrap_fixed_point.
+(* an observation between two edits does not matter: editing the observed tree and editing the tree itself are
+   written the same (text and tree) *)
+Theorem C19_observe_commutes : forall n p r,
+  fst (format (set_leaf p r (snd (format n)))) = fst (format (set_leaf p r n)).
+Proof. exact observe_commutes. Qed.
+Print Assumptions C19_observe_commutes.
 
-(* the padding repair really changes a tree the first time (so idempotence is not vacuous) *)
-Example C19_nonvacuous : as_parsed ex_list = false.
-Proof. exact ex_list_not_as_parsed. Qed.
+(* a whole program of edits with an observation before it and after every edit is written like the program
+   without any observation (induction on the program) *)
+Theorem C19_observed_program : forall es n,
+  fst (format (apply_edits_observed es (snd (format n)))) = fst (format (apply_edits es n)).
+Proof. exact observed_program_text. Qed.
+Print Assumptions C19_observed_program.
+
+(* generations: the parser is not modelled; for ANY function P that reads the written text g1 of ANY tree t
+   (edited or not) losslessly, the next generation reproduces g1, and so does the one after it *)
+Theorem C19_generation_fixed_point : forall P t,
+  let g1 := fst (format t) in
+  Lossless_on P g1 ->
+  let g2 := fst (format (P g1)) in
+  g2 = g1 /\ fst (format (P g2)) = g2.
+Proof. exact generation_fixed_point. Qed.
+Print Assumptions C19_generation_fixed_point.
+
+(* non-vacuity: a tree that format really changes the first time (padding repair, field width, particle order),
+   an observation between two edits, a lossless parser *)
+Example C19_nonvacuous :
+  as_parsed ex_list = false /\
+  fst (format ex_list) = "1 2 34.5 5 2r 6 :N,E" /\ flatten ex_list = "12345 2r6:P,N" /\
+  snd (format ex_list) <> ex_list /\
+  fst (format (snd (format ex_list))) = "1 2 34.5 5 2r 6 :N,E" /\
+  snd (format (snd (format ex_list))) = snd (format ex_list).
+Proof. split; [exact ex_list_not_as_parsed|exact ex_list_format]. Qed.
 Print Assumptions C19_nonvacuous.
+
+Example C19_observe_nonvacuous :
+  fst (format (set_leaf [3; 0] "1.5" (snd (format (set_leaf [3; 2] "9" ex_tree)))))
+  = fst (format (set_leaf [3; 0] "1.5" (set_leaf [3; 2] "9" ex_tree))).
+Proof. exact ex_observe. Qed.
+Print Assumptions C19_observe_nonvacuous.
+
+Example C19_lossless_nonvacuous : Lossless_on (fun _ => ex_tree) (flatten ex_tree).
+Proof. exact ex_lossless. Qed.
+Print Assumptions C19_lossless_nonvacuous.
